@@ -205,7 +205,7 @@ LEVELS['C05'] = 'exploration'
 RULES['C05'] = 'every closed file produced by every generator mode (and copies made by jls_copy) is decoded by the independent decoder: rules R1-R7 of DESIGN 3.3 plus content comparison with the submission model; distinct = (producer, signal types/def classes, levels on disk)'
 ASSUME['C05'] = DECODER_ASSUMPTIONS
 
-CHECKS['C14'] = [file_run(m, 30 if m != 'mix' else 120, 1200, ['C14']) for m in ALL_FILE_MODES]   # + the threaded-writer run appended below
+CHECKS['C14'] = [file_run(m, 30 if m != 'mix' else 120, 1200, ['C14']) for m in ALL_FILE_MODES] + [file_run('far', 160, 3000, ['C14', 'C01', 'C11', 'C12', 'C13'])]   # far: file positions beyond 2^32 (a hole only the library sees)   # + the threaded-writer run appended below
 LEVELS['C14'] = 'exploration'
 RULES['C14'] = 'every backend write of every writer run (synchronous writer programs of all file modes; threaded-writer programs under the controlled scheduler, where write() is a scheduling point and definitions are issued by application threads while the writer thread streams) is judged online by the write-once monitor against the previous bytes (shadow copy): appends, header link patches, head-table updates, file header at close; distinct = (mode, rewrite volume classes)'
 ASSUME['C14'] = ['the monitor sees exactly the write()/ftruncate() calls of backend_posix.o (link-time interposition); the reader repair path is out of scope of the property']
